@@ -191,3 +191,63 @@ func init() {
 		},
 	})
 }
+
+func hashJob(fn string, n, maxcpus, preempt int) jobSpec { return hashJobB(fn, n, maxcpus, preempt, 1) }
+
+// hashJobB: partB = 0 restricts HashDet to part A (order/CPU/schedule independence) with the
+// reference run on one worker.
+func hashJobB(fn string, n, maxcpus, preempt, partB int) jobSpec {
+	p := map[string]string{"n": strconv.Itoa(n), "maxcpus": strconv.Itoa(maxcpus), "partB": strconv.Itoa(partB)}
+	return jobSpec{Name: fmt.Sprintf("%s[n=%d cpus<=%d preemptions<=%d partB=%d]", fn, n, maxcpus, preempt, partB), Func: fn, Params: p,
+		Opts: interp.Options{Budget: 5_000_000, Sched: interp.SchedExplore, MaxPreempt: preempt}}
+}
+
+var hashAssumptions = []string{
+	"scheduling: interleaving semantics on the engine's cooperative scheduler; context switches only at synchronising operations (channel send/receive/close, WaitGroup Add/Done/Wait, go statements); every choice of the next goroutine when the running one blocks or exits is explored, plus at most the stated number of preemptive switches per schedule",
+	"data races on plain memory are not modelled (no happens-before tracking): the 'racing on memory' clause of C18 is not decided",
+	"file system: in-memory model; a missing file fails in os.Open, a 'failing' file opens and fails when read; SHA-256: injective interning model; runtime.NumCPU returns the symbolic worker count",
+	"engine trusted base: go/ssa, the forked interpreter, its channel/WaitGroup implementation",
+}
+
+func init() {
+	register(&checkDef{
+		ID: "C18", Pkg: "runh", Level: "model_checking", NativeCheck: true, UseStubs: true, OnlyPrefix: "C18/",
+		Explanation: "Bounded model checking of the real hash.Concurrent.Hash and worker (go/ssa, interpreted) over symbolic path lists drawn from a pool {two regular files with prefix-related names, a nested file, an empty file, a directory, a missing path, a file whose read fails}, a symbolic worker count, and the schedules of main, feeder, closer and worker goroutines: " +
+			"no panic in any goroutine, no deadlock, termination, an error and no digest whenever an entry cannot be opened or read, and no goroutine left behind after Hash returns.",
+		Bounds: func(tier string) string {
+			if tier == "thorough" {
+				return "lists of length 0..3 (duplicates allowed) over a pool of 7 entries x 1..3 CPUs x all schedules with at most 1 preemption (2 preemptions for lists of length <= 2 with <= 2 CPUs)"
+			}
+			return "lists of length 0..2 (duplicates allowed) over a pool of 7 entries x 1..2 CPUs x all schedules with at most 1 preemption (length 2: no preemption, all blocking-point choices)"
+		},
+		Outside:      []string{"lists longer than 3, more than 3 workers, schedules with more preemptions", "data races (see assumptions); dangling symbolic links; real parallelism"},
+		Assumptions:  hashAssumptions,
+		EndSignature: map[string]string{"crash": "C18/crash", "budget": "C18/non-termination", "deadlock": "C18/deadlock"},
+		Jobs: func(tier string, seed int64) []jobSpec {
+			if tier == "thorough" {
+				return []jobSpec{hashJob("HashClean", 0, 3, 2), hashJob("HashClean", 1, 3, 2), hashJob("HashClean", 2, 2, 2), hashJob("HashClean", 2, 3, 1), hashJob("HashClean", 3, 3, 0), hashJob("HashClean", 3, 2, 1)}
+			}
+			return []jobSpec{hashJob("HashClean", 0, 2, 1), hashJob("HashClean", 1, 2, 1), hashJob("HashClean", 2, 2, 0)}
+		},
+	})
+	register(&checkDef{
+		ID: "C04", Pkg: "runh", Level: "model_checking", NativeCheck: true, UseStubs: true, OnlyPrefix: "C04/",
+		Explanation: "Bounded model checking of the real hash.Concurrent.Hash (worker pool, sortByteSlices, sort.Stable, bytes.Join/Compare from their real SSA) with SHA-256 as an injective function: (A) for a symbolic list over a pool of files and a directory, the digest of the list equals the digest of a permutation of it without its directories under another worker count, on every explored schedule; " +
+			"(B) dropping a file, adding a file, renaming a file (also to a name that is a prefix extension, also with identical content) or editing a file's (symbolic) content changes the digest, and re-writing the same bytes does not.",
+		Bounds: func(tier string) string {
+			if tier == "thorough" {
+				return "lists of length 1..3 over a pool of 5 entries (names a, ab, sub/b, an empty file, a directory; duplicates allowed): length 1 with 1..3 CPUs and 1 preemption; length 2 with 1..2 CPUs (A and B, no preemption; A only with 1 preemption) and with one worker and 1 preemption; length 3 with 1..2 CPUs part A only and with one worker A and B, no preemption"
+			}
+			return "lists of length 1..2 over a pool of 5 entries: length 1 with 1..2 CPUs and schedules with at most 1 preemption (parts A and B); length 2 with one worker, all blocking-point choices (A and B); length 2 with 1..2 CPUs, all blocking-point choices, part A only (reference run on one worker)"
+		},
+		Outside:      []string{"SHA-256 itself (abstracted as injective, digests assumed not to look like path text)", "longer lists, more workers, more preemptions; duplicates are compared as multisets"},
+		Assumptions:  hashAssumptions,
+		EndSignature: map[string]string{"crash": "C04/panic", "budget": "C04/non-termination", "deadlock": "C04/deadlock"},
+		Jobs: func(tier string, seed int64) []jobSpec {
+			if tier == "thorough" {
+				return []jobSpec{hashJob("HashDet", 1, 3, 1), hashJob("HashDet", 2, 2, 0), hashJob("HashDet", 2, 1, 1), hashJobB("HashDet", 2, 2, 1, 0), hashJobB("HashDet", 3, 2, 0, 0), hashJob("HashDet", 3, 1, 0)}
+			}
+			return []jobSpec{hashJob("HashDet", 1, 2, 1), hashJob("HashDet", 2, 1, 0), hashJobB("HashDet", 2, 2, 0, 0)}
+		},
+	})
+}
